@@ -224,7 +224,7 @@ _SLUGS = [
     (r"stencil access must be read-only", "stencil-on-written-field"),
     (r"fixed stencil extents are not currently", "fixed-stencil-extent"),
     (r"operates on DoFs", "dof-kernel-rule"),
-    (r"operate on the domain", "domain-rule"),
+    (r"operates? on the domain", "domain-rule"),
     (r"allowed accesses for operators", "operator-access-not-legal"),
     (r"allowed accesses for fields on", "access-not-legal-for-space"),
     (r"specifies one or more 'gh_shapes'.*does not need", "shape-without-funcs"),
